@@ -142,6 +142,32 @@ func load(cfg *Config) (*ssa.Program, *ssa.Package, int, error) {
 			}
 		}
 	}
+	for _, eo := range cfg.ExtraOverlays {
+		ents, err := os.ReadDir(eo.Dir)
+		if err != nil {
+			return nil, nil, 0, err
+		}
+		for _, e := range ents {
+			n := e.Name()
+			if !strings.HasSuffix(n, ".go") || strings.HasSuffix(n, "_test.go") {
+				continue
+			}
+			if len(eo.Files) > 0 {
+				keep := false
+				for _, f := range eo.Files {
+					keep = keep || f == n
+				}
+				if !keep {
+					continue
+				}
+			}
+			b, err := os.ReadFile(filepath.Join(eo.Dir, n))
+			if err != nil {
+				return nil, nil, 0, err
+			}
+			overlay[filepath.Join(cfg.Repo, strings.TrimPrefix(eo.Pkg, "./"), n)] = b
+		}
+	}
 	if pkgName != "" {
 		lib := cfg.LibDir
 		if lib == "" {
